@@ -252,5 +252,36 @@ theorem unit_of_rotation {c s : ℝ} (h : c ^ 2 + s ^ 2 = 1) (n : V3 ℝ) (hn : 
     ((Transform.rotZcs c s).transformVec n).dot ((Transform.rotZcs c s).transformVec n) = 1 := by
   rw [rotZ_dot h]; exact hn
 
+/-- **the world normal still faces the world ray**: `n_w · d_w = n · d` for an object transform with a true inverse, so a local
+    normal that faces the local ray (`side_faces`) faces the world ray after `info.transform(T)`, `Transform::ray` having sent the
+    direction through the same `T`; and the front/back decision (sign of `n · d`) is the same in both spaces -/
+theorem world_normal_dot {t : Transform ℝ} (ht : Inv t) (i : Info ℝ) (d : V3 ℝ) :
+    (i.transform t).normal.dot (t.transformVec d) = i.normal.dot d := by
+  simp only [Info.transform]; exact normal_perp ht _ _
+
+theorem world_normal_faces {t : Transform ℝ} (ht : Inv t) (i : Info ℝ) (d : V3 ℝ) (h : i.normal.dot d ≤ 0) :
+    (i.transform t).normal.dot (t.transformVec d) ≤ 0 := by
+  rw [world_normal_dot ht]; exact h
+
+/-- the same through the inverse (`inv_transform` of a world-space record with a world-space direction) -/
+theorem local_normal_dot {t : Transform ℝ} (ht : Inv t) (i : Info ℝ) (d : V3 ℝ) :
+    (i.invTransform t).normal.dot (t.invTransformVec d) = i.normal.dot d := by
+  have key : ∀ (a : M4 ℝ) (n w : V3 ℝ), (a.mulNormalT n).dot w = n.dot (a.mulVec w) := by
+    intro a n w; simp only [M4.mulNormalT, M4.mulVec, V3.dot]; num_real; ring
+  show (t.m.mulNormalT i.normal).dot (t.inv.mulVec d) = _
+  rw [key, ← mulVec_mul _ ht.2.2.2, ht.1, mulVec_identity]
+
+/-- the side found from world data agrees with the side found from local data -/
+theorem side_same_in_both_spaces {t : Transform ℝ} (ht : Inv t) (n d : V3 ℝ) :
+    (getSide (t.transformNormal n) (t.transformVec d)).2 = (getSide n d).2 := by
+  have e : (t.transformNormal n).dot (t.transformVec d) = n.dot d := normal_perp ht n d
+  rcases lt_trichotomy (n.dot d) 0 with h | h | h
+  · rw [(side_front_iff _ _).2 (by rw [e]; exact h), (side_front_iff _ _).2 h]
+  · have a := getSide_real n d
+    have b := getSide_real (t.transformNormal n) (t.transformVec d)
+    rw [e] at b
+    rw [a, b, h]; simp
+  · rw [(side_back_iff _ _).2 (by rw [e]; exact h), (side_back_iff _ _).2 h]
+
 end
 end G3d.C13
